@@ -119,7 +119,9 @@ class Runner:
         cout = run_side(self.harness, cases, timeout_case, e, shard)
         self.c_time += time.time() - t
         t = time.time()
-        mout = run_side(self.driver, cases, timeout_case, None, shard)
+        # the models of the cache-dependent routes take the build's PLE cut-off (words) from the environment
+        import ops
+        mout = run_side(self.driver, cases, timeout_case, {"VERIF_PLE_CUTOFF": str(ops.ple_cutoff_words(self.variant))}, shard)
         self.m_time += time.time() - t
         return cout, mout
 
